@@ -5,6 +5,7 @@ import (
 	"go/ast"
 	"go/token"
 	"go/types"
+	"strings"
 
 	"verif/internal/an"
 )
@@ -17,6 +18,7 @@ type linExec struct {
 	decide func(d Lin, op token.Token) tri // is `d op 0` ?
 	call   func(call *ast.CallExpr, args []Lin) (Lin, bool)
 	why    string
+	depth  int
 }
 
 type linOutcome struct {
@@ -69,11 +71,74 @@ func (x *linExec) eval(e ast.Expr) (Lin, bool) {
 				}
 				args = append(args, l)
 			}
-			return x.call(v, args)
+			if l, ok := x.call(v, args); ok {
+				return l, true
+			}
+		}
+		if l, ok := x.inlineCall(v); ok {
+			return l, true
 		}
 	}
 	x.why = "cannot evaluate " + types.ExprString(e)
 	return Lin{}, false
+}
+
+// inlineCall evaluates a call to a module function with a body by executing that body on the
+// argument values (depth-limited): a computation moved into a helper evaluates as before.
+func (x *linExec) inlineCall(call *ast.CallExpr) (Lin, bool) {
+	if currentCtx == nil || x.depth >= 3 {
+		return Lin{}, false
+	}
+	f, _ := an.Callee(x.info, call).(*types.Func)
+	if f == nil || f.Pkg() == nil || !strings.HasPrefix(f.Pkg().Path(), Mod) {
+		return Lin{}, false
+	}
+	sig := f.Type().(*types.Signature)
+	if sig.Recv() != nil || sig.Variadic() || sig.Results().Len() != 1 {
+		return Lin{}, false
+	}
+	fd := c17DeclOf(currentCtx, f)
+	if fd == nil || fd.Body == nil {
+		return Lin{}, false
+	}
+	var pinfo *types.Info
+	for _, pk := range currentCtx.P.Pkgs {
+		if pk.Types == f.Pkg() {
+			pinfo = pk.TypesInfo
+		}
+	}
+	if pinfo == nil {
+		return Lin{}, false
+	}
+	sub := &linExec{info: pinfo, vars: map[types.Object]Lin{}, decide: x.decide, call: x.call, depth: x.depth + 1}
+	i := 0
+	for _, fl := range fd.Type.Params.List {
+		for _, nm := range fl.Names {
+			if i >= len(call.Args) {
+				return Lin{}, false
+			}
+			l, ok := x.eval(call.Args[i])
+			if !ok {
+				return Lin{}, false
+			}
+			sub.vars[pinfo.Defs[nm]] = l
+			i++
+		}
+	}
+	if i != len(call.Args) {
+		return Lin{}, false
+	}
+	out := sub.run(fd.Body.List)
+	if out == nil || out.Kind != "return" || len(out.Ret) != 1 {
+		if out != nil && out.Why != "" {
+			x.why = out.Why
+		}
+		return Lin{}, false
+	}
+	if b, ok := sig.Results().At(0).Type().Underlying().(*types.Basic); !ok || b.Info()&types.IsInteger == 0 {
+		return Lin{}, false
+	}
+	return out.Ret[0], true
 }
 
 func (x *linExec) cond(e ast.Expr) tri {
@@ -228,6 +293,56 @@ func (x *linExec) run(stmts []ast.Stmt) *linOutcome {
 			if out := x.run(st.List); out != nil {
 				return out
 			}
+		case *ast.SwitchStmt:
+			// tagless switch, or a tag compared with each case value; first matching clause runs
+			if st.Init != nil {
+				if out := x.run([]ast.Stmt{st.Init}); out != nil {
+					return out
+				}
+			}
+			var dflt *ast.CaseClause
+			matched := false
+			for _, cs := range st.Body.List {
+				cc := cs.(*ast.CaseClause)
+				if cc.List == nil {
+					dflt = cc
+					continue
+				}
+				res := triFalse
+				for _, ce := range cc.List {
+					var t tri
+					if st.Tag == nil {
+						t = x.cond(ce)
+					} else {
+						t = x.cond(&ast.BinaryExpr{X: st.Tag, Op: token.EQL, Y: ce})
+					}
+					if t == triTrue {
+						res = triTrue
+						break
+					}
+					if t == triUnknown {
+						res = triUnknown
+					}
+				}
+				if res == triUnknown {
+					return &linOutcome{Kind: "stuck", Why: "switch case is not uniform on this partition"}
+				}
+				if res == triTrue {
+					matched = true
+					if hasFallthrough(cc) {
+						return &linOutcome{Kind: "stuck", Why: "fallthrough"}
+					}
+					if out := x.run(cc.Body); out != nil {
+						return out
+					}
+					break
+				}
+			}
+			if !matched && dflt != nil {
+				if out := x.run(dflt.Body); out != nil {
+					return out
+				}
+			}
 		case *ast.ExprStmt, *ast.DeclStmt, *ast.EmptyStmt:
 		default:
 			return &linOutcome{Kind: "stuck", Why: fmt.Sprintf("unsupported statement %T", s)}
@@ -275,4 +390,13 @@ func intervalOracle(atom string, lo, hi int64) func(Lin, token.Token) tri {
 		}
 		return triUnknown
 	}
+}
+
+func hasFallthrough(cc *ast.CaseClause) bool {
+	for _, s := range cc.Body {
+		if b, ok := s.(*ast.BranchStmt); ok && b.Tok == token.FALLTHROUGH {
+			return true
+		}
+	}
+	return false
 }
